@@ -22,8 +22,8 @@ EXPLANATION = ('Heights are field-level symbols (|h| <= 10^4 nm), NaN patterns a
 BOUNDS = {'quick': 'Zygo: shapes 1x3, 3x1, 2x3, 3x2, 3x3 with 4 NaN patterns; cuts at every sample boundary of a 2x3 file, two mid-sample cuts, one header '
                    'cut. Code V: shapes 1x3, 3x1, 2x3, 3x2, 2x2 with 2 NaN patterns, extreme sample first/last valid cell, a in [1000*2^-52, 10^4] nm '
                    'symbolic plus two concrete amplitudes below the all-zero threshold, the zero map, two tie maps, two concrete amplitudes of 10^7 and 10^9 nm; cuts after each of the 6 numbers',
-          'thorough': 'Zygo: shapes up to 4x5; cuts at every byte of the data block of a 2x3 file. Code V: shapes up to 3x3, 2x4, 4x2; extreme sample at '
-                      'every valid cell with both signs for maps of up to 6 samples, first/middle/last cell for larger maps'}
+          'thorough': 'Zygo: shapes up to 4x5; cuts at every byte of the data block of a 2x3 file. Code V: also 1x4, 4x1, 1x5; extreme sample at '
+                      'every valid cell with both signs'}
 OUTSIDE = ('Code V: the digits of a number (a cut inside a number, which a text format cannot distinguish from a shorter number), comment lines and '
            'titles containing "!", all-NaN maps, symbolic amplitudes above 10^4 nm (two concrete amplitudes of 10^7 and 10^9 nm are included); read_zygo_datx (HDF5), Zygo ASCII, multi-bucket intensity frames')
 NDERIVED = 120
@@ -61,7 +61,7 @@ def configs(tier):
     # Code V grid INT (text).  Without loss of generality a map with a non-zero sample is h = a * r with a = max|h| > 0, r in (-1, 1) and
     # r = +-1 at one sample (position and sign enumerated; ties of the extreme value as separate configurations); a is symbolic over [1000 * 2^-52, 10^4] nm (above the writer's "all zero"
     # threshold), or one of two concrete values below that threshold; 'allzero' is the constant-zero map
-    cvshapes = [(1, 3), (3, 1), (2, 3), (3, 2), (2, 2)] + ([] if q else [(3, 3), (2, 4), (4, 2)])
+    cvshapes = [(1, 3), (3, 1), (2, 3), (3, 2), (2, 2)] + ([] if q else [(1, 4), (4, 1), (1, 5)])      # 8-9 sample maps exhaust the path budget (orderings)
     for shp in cvshapes:
         for pat in ('none', 'corner'):
             cells = [(i, j) for i in range(shp[0]) for j in range(shp[1]) if (i, j) not in nan_cells(pat, shp)]
